@@ -190,7 +190,12 @@ def stress(exe, tsan, rnd, nthreads, nops, verdict, label, perms=False):
                  "readfile 43 %s %s %s" % (hx(tr + "/dangling." + sfx), hx(dl), hx(cm)), "free 43",
                  "readfile 44 %s %s %s" % (hx(tr + "/none." + sfx), hx(dl), hx(cm)), "free 44",
                  "readfile 45 %s %s %s" % (hx(tr + "/bad." + sfx), hx(dl), hx(cm)), "free 45",
-                 "readfile 46 %s %s %s" % (hx(tr + "/usr"), hx(dl), hx(cm)), "free 46"]
+                 "readfile 46 %s %s %s" % (hx(tr + "/usr"), hx(dl), hx(cm)), "free 46",
+                 # a layered read whose last drop-in the thread's own callback refuses; the callback opens a descriptor of its own
+                 # at every call and keeps it: afterwards they are all still open, and no descriptor that was not open was closed
+                 # (a descriptor released twice closes what ANOTHER thread opened in between)
+                 "cbreset", "cbrejectpath %s" % hx("%s/etc/%s.%s.d/b.%s" % (tr, name, sfx, sfx)), "cbopenfd 1",
+                 "readdirscb 47 %s %s %s %s %s %s" % (hx(tr + "/usr/etc"), hx(tr + "/etc"), hx(name), hx(sfx), hx(dl), hx(cm)), "fdcheck", "cbopenfd 0", "free 47", "cbreset"]
         for _ in range(3):
             pos = rnd.randrange(1, max(2, len(h.script) - len(h.live) - 1))
             h.script[pos:pos] = reads
@@ -254,6 +259,11 @@ def stress(exe, tsan, rnd, nthreads, nops, verdict, label, perms=False):
     for t, h in enumerate(hists):
         a, b = strip_volatile(outs["ser"][t]), strip_volatile(outs["par"][t])
         ncalls += len(b)
+        badfd = [e for e in outs["ser"][t] + outs["par"][t] if e.get("op") == "fdcheck" and e.get("bad")]
+        if badfd:
+            verdict.violation("C18:stress:descriptor", {"kind": "stress", "threads": nthreads, "thread": t, "event": badfd[0], "script": h.script},
+                              "%d threads: after a layered read that thread %d's callback refused, %d descriptor(s) were closed that the library did not own or that were not open" % (nthreads, t, badfd[0]["bad"]))
+            continue
         if a != b:
             j = next((k for k in range(min(len(a), len(b))) if a[k] != b[k]), min(len(a), len(b)))
             verdict.violation("C18:stress:differs", {"kind": "stress", "threads": nthreads, "thread": t, "call": j, "serial": a[j:j + 1], "parallel": b[j:j + 1], "script": h.script},
